@@ -10,6 +10,11 @@ solver-decidable form proved here on the REAL code:
   * fista     : every returned iterate is >= eps; a point that one projected-gradient step (any lr > 0, also the default
                 lr = 1/(sigma_max + 2 l_r) through the SVD stub) leaves unchanged satisfies the KKT system of
                 min_{x >= eps} 1/2 ||m - U x||^2 + l_1 * sum(x) + l_2 * ||x||^2 .
+                default step size (lr=None): the first iteration (momentum 1, i.e. one projected-gradient step) does not increase the
+                penalised objective from any feasible start -- for a scalar step this is lr <= 2/L (L = largest eigenvalue of
+                UtU + 2 l_2 I), without which the iteration cannot converge; UtU is generated from its eigen-decomposition and the
+                SVD stub returns those eigenvalues (1 unknown: with and without projection; 2 unknowns: without projection, gradient
+                at the start along either eigenvector = the extreme directions).
   * active_set_nnls : executed on all paths (Cramer solve); at every return that did not exhaust n_iter_max the result
                 satisfies KKT of  min_{x >= 0} 1/2 x'(UtU)x - Utm'x  up to the code's own tolerance tol (symbolic >= 0,
                 and tol = 0).
@@ -44,7 +49,7 @@ ENCODED = [
     "tensorly.solvers.admm.admm",
 ]
 BOUNDS = {
-    "quick": "hals/fista: 1-2 unknowns x 1-2 right-hand sides, U square (m = r) signed, sparsity/ridge each None|symbolic >= 0, epsilon 0|symbolic > 0, one sweep / one or two steps; "
+    "quick": "hals/fista: 1-2 unknowns x 1-2 right-hand sides, U square (m = r) signed, sparsity/ridge each None|symbolic >= 0, epsilon 0|symbolic > 0, one sweep / one or two steps; fista default step: 1-2 unknowns, one right-hand side, one iteration; "
     "cold start r <= 2 (Cramer); active set: 1-2 unknowns, cold and warm start, n_iter_max 2 (1 unknown) / 3 (2 unknowns), tol 0|symbolic >= 0; admm: r <= 2, n <= 2; normal-equation data parametrised as (A SPD, B) -- and as (U'U, U'M) from a symbolic U for one unknown",
     "thorough": "as quick plus 3 unknowns x 2 right-hand sides for hals/fista/admm and a tall symbolic design U (3 x 1); active set stays at <= 2 unknowns (3 unknowns undecided in 25 min)",
 }
@@ -54,7 +59,8 @@ OUTSIDE = [
     "conditioning beyond det(U) != 0 / non-zero columns",
     "IEEE rounding (tol-relative stopping rules are exercised only through their exact-arithmetic meaning)",
     "nonzero_rows=True (changes the returned point on purpose)",
-    "fista with non_negative=False",
+    "fista with non_negative=False (except the default-step obligation)",
+    "fista default step at 2 unknowns with the projection active, or from starts whose gradient is not an eigenvector (nlsat `unknown`, measured)",
 ]
 TRUSTED = ["z3", "Cramer model of tl.solve for the hals cold start; for the active set tl.solve on a nonsingular principal sub-system is introduced by its defining equations (unique solution)", "solve contract A x = b for admm", "SVD stub (S[0] >= 0) for the default FISTA step size"]
 ASSUMPTIONS = [
@@ -104,6 +110,17 @@ def configs(tier):
                 add(f"fista/{part}/r{r}n{n}/sp_{sp}/rd_{rd}/lr_sym", fn="fista", part=part, r=r, n=n, m=r, sp=sp, rd=rd, lr="sym")
         add(f"fista/fix/r{r}n{n}/sp_sym/rd_sym/lr_default", fn="fista", part="fix", r=r, n=n, m=r, sp="sym", rd="sym", lr="default")
         add(f"fista/iter2/r{r}n{n}/sp_sym/rd_sym/lr_sym", fn="fista", part="iter2", r=r, n=n, m=r, sp="sym", rd="sym", lr="sym")
+    # default step size of fista (lr=None): the first iteration (momentum 1 = one projected-gradient step) must not increase the
+    # objective from ANY feasible start -- equivalent to lr <= 2/L for the largest eigenvalue L of UtU + 2*ridge*I, without which the
+    # iteration does not converge.  UtU := G diag(s) G' from its eigen-decomposition (input-from-output generation; the SVD
+    # stub returns (G, s, G') for it), start and right-hand side given in the eigenbasis.
+    for nn_ in (0, 1):
+        for sp, rd in (("none", "none"), ("sym", "sym")):
+            add(f"fista/default_step/r1/nn{nn_}/sp_{sp}/rd_{rd}", fn="fista_step", r=1, n=1, m=1, nn=nn_, sp=sp, rd=rd, dir=None, mode="fork" if nn_ else "merge")
+            for d_ in (0, 1) if not nn_ else ():  # with the projection (nn1) at r = 2: path budget exhausted / `unknown` (measured)
+                # r = 2: the general start is undecided (nlsat `unknown`); decided for starts whose gradient is an eigenvector of
+                # the Hessian -- the extreme directions for a scalar step size (right-hand side generated from the gradient)
+                add(f"fista/default_step/r2/nn{nn_}/sp_{sp}/rd_{rd}/dir{d_}", fn="fista_step", r=2, n=1, m=2, nn=nn_, sp=sp, rd=rd, dir=d_, mode="fork" if nn_ else "merge")
     # active set (solve model: "def" = unique solution of the nonsingular sub-system introduced as a definition; "exact" = Cramer)
     for r in (1, 2):  # 3 unknowns: undecided within 25 min (measured), not included
         for start in ("cold", "warm"):
@@ -231,6 +248,8 @@ def harness(E, cfg):
         return h_hals_cold(E, cfg)
     if fn == "fista":
         return h_fista(E, cfg)
+    if fn == "fista_step":
+        return h_fista_step(E, cfg)
     if fn == "active":
         return h_active(E, cfg)
     if fn == "admm":
@@ -342,6 +361,59 @@ def h_fista(E, cfg):
     E.prove("fixed_point_kkt/feasible", feas)
     E.prove("fixed_point_kkt/gradient_nonneg", dual)
     E.prove("fixed_point_kkt/complementarity", comp)
+
+
+def h_fista_step(E, cfg):
+    from vt import backend, sym
+
+    r, nn_ = cfg["r"], cfg["nn"]
+    sv = E.real("s", (r,), pos=True)
+    for i in range(r - 1):
+        E.assume(E.ge(sv[i], sv[i + 1]))
+    ls, lr_ = penalties(E, cfg)
+    rho2 = 0 if lr_ is None else 2 * lr_
+    if r == 2:
+        # eigenvectors (a, b) and (-b, a), unnormalised: UtU = (s0 vv' + s1 ww')/(a^2+b^2) is rational in (a, b) and integer
+        # points give rich witnesses (a = 1, b = -1, s = (3, 1): [[2, -1], [-1, 2]])
+        a, b_ = E.real("a"), E.real("b")
+        n2 = a * a + b_ * b_
+        E.assume(E.gt_strict(n2, 0))
+        V = [[a, -b_], [b_, a]]  # columns
+        A = _arr(E, np.array([[sum(V[i][k] * sv[k] * V[j][k] for k in range(2)) / n2 for j in range(2)] for i in range(2)], dtype=object))
+    else:
+        V = [[1]]
+        A = _arr(E, np.array([[sv[0]]], dtype=object))
+    x0 = _arr(E, np.array(E.real("x0", (r, 1)), dtype=object))
+    if cfg.get("dir") is None:
+        b = _arr(E, np.array(E.real("b0", (r, 1)), dtype=object))
+    else:
+        # right-hand side generated from the gradient at the start: grad F(x0) = gamma * (eigenvector dir)
+        gam = E.real("gamma")
+        d_ = cfg["dir"]
+        b = _arr(E, np.array([[sum(A[i, k] * x0[k, 0] for k in range(r)) + rho2 * x0[i, 0] + (0 if ls is None else ls) - gam * V[i][d_]] for i in range(r)], dtype=object))
+    eps = E.real("eps", nn=True) if nn_ else 0
+    if nn_:
+        E.assume([E.ge(x0[k, 0], eps) for k in range(r)])
+    if E.symbolic:
+        backend.configure(svd="havoc")
+        # fista only reads the largest singular value: singular vectors of the table entry are arbitrary fresh arrays
+        backend.POLICY.tables["svd"].append(((A,), (backend.fresh_array("svdU", (r, r)), _arr(E, np.array(list(sv), dtype=object)), backend.fresh_array("svdV", (r, r)))))
+    x1 = NN.fista(b, A, x=tl.copy(x0), n_iter_max=1, sparsity_coef=ls, ridge_coef=0 if lr_ is None else lr_, epsilon=eps, non_negative=bool(nn_))
+    E.prove("shape", np.shape(x1) == (r, 1))
+
+    def F(x):
+        v = 0
+        for i in range(r):
+            v = v - b[i, 0] * x[i, 0]
+            for j in range(r):
+                v = v + x[i, 0] * A[i, j] * x[j, 0] / 2
+            if ls is not None:
+                v = v + ls * x[i, 0]
+            if lr_ is not None:
+                v = v + lr_ * x[i, 0] * x[i, 0]
+        return v
+
+    E.prove("default_step/first_iteration_does_not_increase_the_objective", E.le(F(x1), F(x0)))
 
 
 class _LoopProbe:
